@@ -377,6 +377,20 @@ def s_nested() -> Struct:
     return s
 
 
+def s_hidden() -> Struct:
+    """A catalog that occurs ONLY inside a member of another catalog that is not the first one (not the member selected
+    when the central controller is built): its controller still spans the configurations."""
+    s = Struct('hidden')
+    co = s.ctrl('outer', ['plain', 'deep'])
+    ci = s.ctrl('inner', ['u', 'v', 'w'])
+    x = s.var('x')
+    inner = s.cat('in', ci, [s.num(10), s.num(20), s.times(x, s.num(3))])
+    outer = s.cat('out', co, [s.num(5), s.times(inner, s.num(100))])
+    s.plus(outer, x)
+    s.features = ['nested', 'nested-in-a-member-that-is-not-selected']
+    return s
+
+
 def s_elem() -> Struct:
     """Catalogs below Elem branches and as the Elem key."""
     s = Struct('elem')
@@ -572,7 +586,7 @@ def selections(st: Struct, tier: str) -> list:
 
 
 def structures(tier: str) -> list:
-    out = [s_one(), s_two(), s_three(), s_shared(), s_nested(), s_elem(), s_seg(2), s_gas(False), s_gas(True)]
+    out = [s_one(), s_two(), s_three(), s_shared(), s_nested(), s_hidden(), s_elem(), s_seg(2), s_gas(False), s_gas(True)]
     if tier == 'thorough':
         out += [s_three((4, 4, 4), 'three444'), s_three((1, 3, 2), 'three132'), s_seg(1)]
     return out
